@@ -13,6 +13,7 @@ import (
 	"log/slog"
 	"net"
 	"net/netip"
+	"regexp"
 	"strings"
 	"syscall"
 	"testing"
@@ -86,10 +87,21 @@ func c19RenderMsg(m *Message, f c19Flavour) string {
 	return sb.String()
 }
 
+// c19AllocKey: every body decoder that reads a nexthop list goes through decodeNexthops
+// (zapi.go: make([]Nexthop, numNexthop) before any length check), so one root cause gets one key.
+func c19AllocKey(bodyType string) string {
+	switch bodyType {
+	case "IPRouteBody", "NexthopUpdateBody", "lookupBody", "nexthop-list", "any":
+		return "C19:alloc:zapi.go:decodeNexthops:make([]Nexthop,numNexthop)"
+	}
+	return "C19:alloc:zebra." + bodyType + ".decodeFromBytes"
+}
+
 func c19ParseEntry(f c19Flavour, raw APIType, bodyType string) *c19lib.Entry {
 	return &c19lib.Entry{
-		Name:  fmt.Sprintf("zebra.parseMessage[%s,cmd=%d,%s]", f, raw, bodyType),
-		Group: "zebra." + bodyType + ".decodeFromBytes",
+		Name:     fmt.Sprintf("zebra.parseMessage[%s,cmd=%d,%s]", f, raw, bodyType),
+		Group:    "zebra." + bodyType + ".decodeFromBytes",
+		AllocKey: c19AllocKey(bodyType),
 		Run: func(x *c19lib.Checker, data []byte) c19lib.Outcome {
 			hdr := &Header{Len: HeaderSize(f.v) + uint16(len(data)), Marker: HeaderMarker(f.v), Version: f.v, Command: raw}
 			m, err := parseMessage(hdr, data, f.sw)
@@ -103,8 +115,9 @@ func c19ParseEntry(f c19Flavour, raw APIType, bodyType string) *c19lib.Entry {
 
 func c19DirectEntry(f c19Flavour, what string, mk func() Body) *c19lib.Entry {
 	return &c19lib.Entry{
-		Name:  fmt.Sprintf("zebra.%s.decodeFromBytes[%s]", what, f),
-		Group: "zebra." + what + ".decodeFromBytes",
+		Name:     fmt.Sprintf("zebra.%s.decodeFromBytes[%s]", what, f),
+		Group:    "zebra." + what + ".decodeFromBytes",
+		AllocKey: c19AllocKey(what),
 		Run: func(x *c19lib.Checker, data []byte) c19lib.Outcome {
 			b := mk()
 			if err := b.decodeFromBytes(data, f.v, f.sw); err != nil {
@@ -130,6 +143,7 @@ func (c *c19Conn) SetWriteDeadline(time.Time) error { return nil }
 func c19RecvEntry(f c19Flavour) *c19lib.Entry {
 	return &c19lib.Entry{
 		Name:      fmt.Sprintf("zebra.ReceiveSingleMsg[%s]", f),
+		AllocKey:  c19AllocKey("any"),
 		TightOnly: true, // the bytes are copied through a net.Conn: cap of the input is irrelevant
 		Run: func(x *c19lib.Checker, data []byte) c19lib.Outcome {
 			conn := &c19Conn{bytes.NewReader(data)}
@@ -191,8 +205,9 @@ func c19BuildEntries(fl []c19Flavour) (all []*c19lib.Entry, per []*c19FlavourEnt
 		d("redistributeBody", func() Body { return &redistributeBody{} })
 		d("NexthopRegisterBody", func() Body { return &NexthopRegisterBody{} })
 		fe.direct["RegisteredNexthop"] = &c19lib.Entry{
-			Name:  fmt.Sprintf("zebra.RegisteredNexthop.decodeFromBytes[%s]", f),
-			Group: "zebra.RegisteredNexthop.decodeFromBytes",
+			Name:     fmt.Sprintf("zebra.RegisteredNexthop.decodeFromBytes[%s]", f),
+			Group:    "zebra.RegisteredNexthop.decodeFromBytes",
+			AllocKey: c19AllocKey("RegisteredNexthop"),
 			Run: func(x *c19lib.Checker, data []byte) c19lib.Outcome {
 				n := &RegisteredNexthop{}
 				if err := n.decodeFromBytes(data, f.v, f.sw); err != nil {
@@ -204,8 +219,9 @@ func c19BuildEntries(fl []c19Flavour) (all []*c19lib.Entry, per []*c19FlavourEnt
 		}
 		for _, backup := range []bool{false, true} {
 			fe.direct[fmt.Sprintf("decodeMessageNexthop[backup=%v]", backup)] = &c19lib.Entry{
-				Name:  fmt.Sprintf("zebra.IPRouteBody.decodeMessageNexthopFromBytes[%s,backup=%v]", f, backup),
-				Group: "zebra.IPRouteBody.decodeMessageNexthopFromBytes",
+				Name:     fmt.Sprintf("zebra.IPRouteBody.decodeMessageNexthopFromBytes[%s,backup=%v]", f, backup),
+				Group:    "zebra.IPRouteBody.decodeMessageNexthopFromBytes",
+				AllocKey: c19AllocKey("nexthop-list"),
 				Run: func(x *c19lib.Checker, data []byte) c19lib.Outcome {
 					b := &IPRouteBody{Message: MessageNexthop | messageBackupNexthops, Prefix: Prefix{Family: syscall.AF_INET}}
 					n, err := b.decodeMessageNexthopFromBytes(data, f.v, f.sw, backup)
@@ -256,6 +272,9 @@ func c19Constructible(fl []c19Flavour) []c19Msg {
 		// HELLO (Client.SendHello)
 		for _, rt := range []RouteType{RouteBGP, routeSystem, routeAll} {
 			for _, inst := range []uint16{0, 0xffff} {
+				if inst != 0 && f.v < 4 {
+					continue // the ZAPI 2/3 HELLO has no instance field
+				}
 				add("HelloBody", fmt.Sprintf("Hello(redist=%d,instance=%d)", rt, inst), Hello, true, func() Body {
 					return &HelloBody{redistDefault: rt, instance: inst}
 				})
@@ -475,10 +494,18 @@ func c19RoundTrip(r *vr.Report, c c19Msg) {
 		return
 	}
 	if err != nil {
-		r.Violationf(key("reparse-error"), cs, "%s serialises to %x which does not decode: %v", c.name, b0, err)
+		r.Outcome(fmt.Sprintf("roundtrip: FAILS to decode: %s %s", c.kind, c.f))
+		// the decoder's complaint (digits removed) separates the root causes: a stray byte per nexthop,
+		// message bit 0x40 read as "backup nexthops", a mis-sized fixed part, ...
+		cls := regexp.MustCompile(`[0-9]+`).ReplaceAllString(err.Error(), "N")
+		if i := strings.Index(cls, ","); i > 0 {
+			cls = cls[:i]
+		}
+		r.Violationf(key("reparse-error")+":"+cls, cs, "%s serialises to %x which does not decode: %v", c.name, b0, err)
 		return
 	}
 	if ok, path := c19Same(c.mk(), m1.Body); !ok {
+		r.Outcome(fmt.Sprintf("roundtrip: DIFFERS: %s %s", c.kind, c.f))
 		r.Violationf(key("not-equal"), cs, "%s -> %x -> decoded message differs: %s", c.name, b0, path)
 		return
 	}
@@ -638,7 +665,7 @@ func c19SearchSeed(x *c19lib.Checker, e *c19lib.Entry) []byte {
 		if try(b) {
 			return b
 		}
-		for p := 0; p < L && p < 12; p++ {
+		for p := 0; p < L && p < 20; p++ {
 			for _, v := range []byte{syscall.AF_INET, syscall.AF_INET6, 1} {
 				b[p] = v
 				if try(b) {
@@ -733,7 +760,11 @@ func TestVerif_C19_Zebra(t *testing.T) {
 				continue
 			}
 			count[c.kind]++
-			if count[c.kind] <= seenKind[c.kind]-2 {
+			keep := 1
+			if f.rep {
+				keep = 2
+			}
+			if count[c.kind] <= seenKind[c.kind]-keep {
 				continue
 			}
 			m := &Message{Header: Header{Len: HeaderSize(f.v), Marker: HeaderMarker(f.v), Version: f.v, Command: c.cmd.ToEach(f.v, f.sw)}, Body: c.mk()}
@@ -745,7 +776,12 @@ func TestVerif_C19_Zebra(t *testing.T) {
 			if e := fe.direct[c.kind]; e != nil {
 				es = append(es, e)
 			}
-			es = append(es, fe.byBody[c.kind]...)
+			if f.rep || f.v <= 4 {
+				es = append(es, fe.byBody[c.kind]...)
+			} else if len(fe.byBody[c.kind]) > 0 {
+				// the command numbers of one body type share the decoder (they differ in IPRouteBody.API only)
+				es = append(es, fe.byBody[c.kind][0])
+			}
 			addSeed(fmt.Sprintf("body:%s", c.name), wire[hs:], es)
 			if c.kind == "NexthopRegisterBody" {
 				addSeed(fmt.Sprintf("body:%s", c.name), wire[hs:], []*c19lib.Entry{fe.direct["RegisteredNexthop"]})
@@ -844,19 +880,37 @@ func TestVerif_C19_Zebra(t *testing.T) {
 			wide = append(wide, e)
 		}
 	}
-	// Quick: full alphabet <=3 at Header.decodeFromBytes; full alphabet <=2 at every entry point of one
-	// representative flavour per ZAPI version; full alphabet <=1 and boundary alphabet <=3 at every entry
-	// point of every flavour (the full alphabet at length 3 over all 500+ entry points is 26 G calls: unaffordable).
+	// Quick: full alphabet <=3 at Header.decodeFromBytes; full alphabet <=2 and boundary alphabet <=3 at every
+	// entry point of one representative flavour per ZAPI version; full alphabet <=1 and boundary alphabet <=2
+	// at every entry point of every flavour (the full alphabet at length 3 over all 500+ entry points is
+	// 26 G calls: unaffordable).
 	plan := &c19lib.Plan{
 		Entries: entries[:1], StrAlpha: c19lib.FullAlphabet(), StrMaxLen: 3,
 		Groups: []c19lib.StrGroup{
 			{Label: "representative-flavours full<=2", Entries: repEntries, Alpha: c19lib.FullAlphabet(), MaxLen: 2},
 			{Label: "all full<=1", Entries: entries, Alpha: c19lib.FullAlphabet(), MaxLen: 1},
-			{Label: "all-but-nexthop-list boundary<=3", Entries: wide, Alpha: c19lib.Boundary, MaxLen: 3},
+			{Label: "representative-flavours boundary<=3", Entries: repEntries, Alpha: c19lib.Boundary, MaxLen: 3},
+			{Label: "all-but-nexthop-list boundary<=2", Entries: wide, Alpha: c19lib.Boundary, MaxLen: 2},
 		},
 		Seeds: seeds, Opt: c19lib.MutOpt{PairStride: 1},
+		// allocation pass: window faults and truncations of the seeds of the representative flavours,
+		// one entry point per seed (the nexthop-count amplification makes each offending case cost
+		// milliseconds and 13 MiB; the defect is flavour-independent)
+		AllocOpt: c19lib.MutOpt{WindowsOnly: true},
+		AllocFilter: func(s *c19lib.Seed, e *c19lib.Entry) bool {
+			if e != s.Entries[0] {
+				return false
+			}
+			for _, fe := range per {
+				if fe.f.rep && strings.Contains(e.Name, "["+fe.f.String()+"]") || fe.f.rep && strings.Contains(e.Name, "["+fe.f.String()+",") {
+					return true
+				}
+			}
+			return false
+		},
 	}
 	if vr.Thorough() {
+		plan.AllocFilter = func(s *c19lib.Seed, e *c19lib.Entry) bool { return e == s.Entries[0] }
 		// Thorough: full alphabet <=3 at the representative flavours with cap==len only, full <=2 and boundary <=4 everywhere.
 		plan.Groups = []c19lib.StrGroup{
 			{Label: "representative-flavours full<=3 cap==len", Entries: tightRep, Alpha: c19lib.FullAlphabet(), MaxLen: 3},
